@@ -347,6 +347,11 @@ func buildPolicyMsg(e *env.Env, rng *chain.Rng, kind int) (string, sdk.Msg, map[
 		p := &clptypes.ProviderDistributionPeriod{DistributionPeriodStartBlock: uint64(h + 1), DistributionPeriodEndBlock: uint64(h + 6), DistributionPeriodBlockRate: sdk.OneDec(), DistributionPeriodMod: 1}
 		f["start"], f["end"], f["mod"], f["rate"], f["then"] = h+1, h+6, 1, "1", "two blocks later user 1 adds 1 rowan base unit + 1e18 ceth to the ceth pool and removes 5000 basis points of it"
 		return "MsgAddProviderDistributionPeriodRequest", &clptypes.MsgAddProviderDistributionPeriodRequest{Signer: adm, DistributionPeriods: []*clptypes.ProviderDistributionPeriod{p}}, f
+	case 104: // corpus: a running rate (accepted: any rate above -1, outside a policy window) so large that pricing the custody of a
+		// position overflows sdk.Uint in the margin begin blocker — that position is skipped, the block must go on
+		m := &clptypes.MsgModifyPmtpRates{Signer: adm, RunningRate: "1000000000000000000000000000000000000000000000000000000000000"}
+		f["running_rate"] = m.RunningRate
+		return "MsgModifyPmtpRates", m, f
 	case 0: // reward period
 		p := &clptypes.RewardPeriod{RewardPeriodId: "rp1"}
 		if rng.Intn(2) == 0 {
@@ -521,16 +526,37 @@ func C10(c Ctx) *report.Report {
 		coins := sdk.NewCoins(sdk.NewCoin("ceth", sdk.NewIntFromBigInt(chain.E(20))))
 		e.Tx(e.Users[2], clptypes.NewMsgAddLiquidityToRewardsBucketRequest(e.Users[2].Addr.String(), coins))
 		kind := rng.Intn(8)
-		if i < 4 {
-			kind = 100 + i // corpus first: the recorded findings F-15, F-16, F-7 and F-25
+		if i < 5 {
+			kind = 100 + i // corpus first: the recorded findings F-15, F-16, F-7 and F-25; a rate that makes every position's health overflow
 		}
 		cs := c10Case{ID: id}
 		// a third of the worlds have both pools enabled for margin trading: the margin begin blocker then recomputes the
 		// pools' interest rates and health every margin epoch
-		if rng.Intn(3) == 0 || kind == 102 {
+		if rng.Intn(3) == 0 || kind == 102 || kind == 104 {
 			enableMargin(e, rng)
 			cs.Margin = true
 			rep.Count("admin.world.margin-enabled")
+			// ... and open positions in both collateral directions: the margin begin blocker then computes health and interest of
+			// every position each margin epoch, whatever the policy message below does to prices and rates (a position whose
+			// processing fails or panics is skipped, the block goes on)
+			if kind != 102 {
+				for b := 0; b < 4; b++ { // a margin epoch passes: the begin blocker gives the pools their health
+					e.NextBlock()
+				}
+				for k, tok := range []string{"ceth", "cusdc"} {
+					coll, bor := "rowan", tok
+					if k == 1 {
+						coll, bor = tok, "rowan"
+					}
+					m := margintypes.MsgOpen{Signer: e.Users[1+k].Addr.String(), CollateralAsset: coll, CollateralAmount: env.U(new(big.Int).Mul(big.NewInt(int64(10+rng.Intn(1000))), chain.E(18))),
+						BorrowAsset: bor, Position: margintypes.Position_LONG, Leverage: sdk.NewDecWithPrec(int64(110+rng.Intn(90)), 2)}
+					if r := e.Tx(e.Users[1+k], &m); r.Code == 0 {
+						rep.Count("admin.world.margin-position-open")
+					} else {
+						rep.Count("admin.world.margin-position-refused: " + trunc(r.Log, 90))
+					}
+				}
+			}
 		}
 		// second message kinds need a first one
 		if kind == 5 && rng.Intn(2) == 0 {
